@@ -445,15 +445,23 @@ func (d *Drv) groupPending(states map[int64]bool) (nonEmpty, allReady bool) {
 //   - after a hand: the table is in standby with the open-game gate set up for the next count, or pausing / closed.
 //
 // Returns false if that does not happen within the time limit (the caller reports a wedge).
+// slowFactor (-slow N) multiplies the time the table has to look settled before it is believed to be (confirmation runs)
+var slowFactor = 1
+
 func (d *Drv) Quiesce(limit time.Duration) bool {
-	deadline := time.Now().Add(limit)
+	sf := slowFactor
+	if sf > 5 {
+		sf = 5
+	}
+	deadline := time.Now().Add(limit * time.Duration(sf))
 	stableFor := 0
+	need := 8 * slowFactor
 	for {
 		if d.stableNow() {
 			stableFor++
 			// the gate's and the hand's ready groups register an answer a moment after the call returned (syncsaga passes it
 			// through a channel): "stable" has to hold for a few milliseconds
-			if stableFor >= 8 {
+			if stableFor >= need {
 				return true
 			}
 		} else {
@@ -462,7 +470,14 @@ func (d *Drv) Quiesce(limit time.Duration) bool {
 		if time.Now().After(deadline) {
 			return false
 		}
+		t0 := time.Now()
 		time.Sleep(400 * time.Microsecond)
+		// a sleep that overshoots by milliseconds means the machine is busy: the engine's goroutines may be waiting for a
+		// processor too, so "nothing moved" has to hold for longer before it means "nothing will move"
+		if time.Since(t0) > 3*time.Millisecond && need < 50*slowFactor {
+			need = 50 * slowFactor
+			stableFor = 0
+		}
 	}
 }
 
